@@ -919,6 +919,16 @@ example : ymlPaths [Item.co 0] ⊆ demoU ∧ ∀ f ∈ coFiles [Item.co 0], ∀ 
   simp [coFiles] at hf; subst hf
   simp [demoWorld] at hps; subst hps; simp [demoU]
 
+/-- the form that is checked on every run: the driver evaluates `closedWorld` on the world read off the real file tree (U = the
+    import paths that occur in it) and runs `fromPath` with more fuel than the bound; the harness compares the result with what
+    the real `RailsConfig.from_path` did. -/
+theorem config_load_terminates_checked (w : World) (U : List String) (items : List Item) (h : closedWorld w U items = true) :
+    ∃ r, (∀ n, total w U (initSt items) + U.length + 4 ≤ n → fromPath w n items = some r) ∧ ∀ s', r = .ok s' → Done U s' := by
+  obtain ⟨hU, hC, hy, hf⟩ := closedWorld_sound h
+  exact config_load_terminates w U hU hC items hy hf
+
+example : closedWorld demoWorld demoU [Item.co 0] = true := by decide
+
 /-- the demo configuration really loads (cycle, self-import, repeated imports): 4 files parsed, 3 paths imported -/
 def demoResult : St := { importPaths := ["a", "pkg", "b"], imported := [("a", "lib/a.co"), ("pkg", "lib/pkg"), ("b", "lib/b.co")], files := [0, 1, 3, 2], parsed := 4 }
 
